@@ -48,6 +48,9 @@ def one_op_positions(e, name):
         ("arg", "r = clz32(%s);" % e),
         ("arg2", "r = extract32(%s, 0, 8);" % e),
         ("ccond", "r = %s ? 7 : 9;" % e),
+        # the left operand of && / || is always evaluated, whatever the right operand is
+        ("and0", "r = %s && 0;" % e), ("or1", "r = %s || 1;" % e), ("and1", "r = %s && 1;" % e), ("or0", "r = %s || 0;" % e), ("and0-if", "if (%s && 0) { r = 1; } else { r = 2; }" % e),
+        ("or1-cond", "r = (%s || 1) ? 5 : 6;" % e), ("and-fold", "r = %s && (1 < 0);" % e), ("not-and0", "r = !(%s && 0);" % e),
         ("cthen", "r = c ? %s : 9;" % e),
         ("celse", "r = c ? 9 : %s;" % e),
         ("stmt", "%s;" % e),
